@@ -126,8 +126,24 @@ def run_cases(run: Run, cases, stream, lean_ok=True):
             continue
         rows.append((c, before, after, res))
     models = run_driver([S.lean_request(c, b) for c, b, _, _ in rows]) if lean_ok and rows else [None] * len(rows)
-    for (c, before, after, res), m in zip(rows, models):
+    # string level: the Lean scanner (Model/Scan.lean, theorems in Props/C02Scan.lean) reads the REAL output string
+    scans = {}
+    if lean_ok and rows:
+        idx = [i for i, r in enumerate(rows) if "out" in r[3]]
+        for i, sc in zip(idx, run_driver([{"cmd": "scan", "text": rows[i][3]["out"]} for i in idx])):
+            scans[i] = sc
+    for i, ((c, before, after, res), m) in enumerate(zip(rows, models)):
         judge(run, stream, c, before, after, res, m)
+        sc = scans.get(i)
+        if sc is not None:
+            if "driver_error" in sc:
+                raise common.ToolFailure(str(sc))
+            run.count("scanner", "not-well-formed" if "error" in sc else ("built" if sc.get("built") else "tokens-only"))
+            expect = trees.merge_text(before)
+            if "error" in sc or sc.get("built") is None:
+                run.mismatch(stream, c, res["out"], sc, "the Lean scanner does not read the real output as one well-formed element")
+            elif trees.canon(sc["built"]) != expect:
+                run.mismatch(stream, c, sc["built"], expect, "Lean build(scan(real output)) differs from the original tree")
 
 
 def corpus():
